@@ -73,8 +73,8 @@ class Spec(PropSpec):
     pid = "C07"
     subsys = "Fs"
     props_file = "C07.v"
-    theorems = ["c07_crash_image", "c07_synced_never_lost", "c07_unsynced_entry_gone", "c07_no_unwritten_bytes", "c07_random_sync",
-                "c07_rename_file_refuted", "c07_recreate_refuted", "c07_kind_swap_refuted", "c07_nonvacuous"]
+    theorems = ["c07_crash_image", "c07_torn", "c07_synced_never_lost", "c07_unsynced_entry_gone", "c07_no_unwritten_bytes", "c07_random_sync",
+                "c07_rename_file_refuted", "c07_recreate_refuted", "c07_kind_swap_refuted", "c07_nonvacuous", "c07_torn_nonvacuous"]
     coq_targets = ["C07.vo"]
     consts = FS_CONSTS
     anchors = FS_ANCHORS + [("crates/turmoil/src/sim.rs", "crash")]
@@ -91,9 +91,9 @@ class Spec(PropSpec):
         "expectations are asserted for entries all of whose ancestors are durable; once a crash meets a dangling durable subtree nothing more is asserted for that host",
         "symlinks, hard links, permissions, timestamps are outside the property; io_uring fsync is covered by C18",
     ]
-    partial_note = ("c07_crash_image is proved for block_size None (torn writes are covered by the FsDurable model, the "
-                    "correspondence and the oracle only) and for the alphabet without create_dir_all / remove_dir_all / "
-                    "remove_dir; it holds outside the known classes RenameFile, RenameSelf, RenameDir, StaleHandle, Recreate, "
+    partial_note = ("c07_crash_image is proved for every block size, coin and draw sequence, for the alphabet without "
+                    "create_dir_all / remove_dir_all / remove_dir (these three are covered by the FsDurable model, the "
+                    "correspondence and the oracle only); it holds outside the known classes RenameFile, RenameSelf, RenameDir, StaleHandle, Recreate, "
                     "KindSwap, OpenOptsInvalid, RootOp")
 
     def gen_cases(self, ctx):
